@@ -328,6 +328,9 @@ func c07One(c *Ctx, idx int, local map[string]int64) {
 		r.Violation("panic", d)
 		return
 	}
+	if err == nil && idx%2 == 0 {
+		c07Stream(c, idx, tmpl, params, st, local)
+	}
 	allInline, allSame := true, true
 	for _, s := range slots {
 		allInline = allInline && s.inlineOK
@@ -480,6 +483,98 @@ func c07One(c *Ctx, idx int, local map[string]int64) {
 		return
 	}
 	local[fmt.Sprintf("must-error.%d", variant)]++
+}
+
+// c07Stream: one parser reads the template three times from one text, and
+// the bindings are replaced between the statements - first the given values,
+// then perturbed values under the same names, then a map that binds none of
+// them. Each statement is parsed with the bindings in force when it is read.
+func c07Stream(c *Ctx, idx int, tmpl string, params map[string]interface{}, want influxql.Statement, local map[string]int64) {
+	r := c.R
+	other := map[string]interface{}{}
+	for k, v := range params {
+		switch x := v.(type) {
+		case string:
+			other[k] = x + "_2"
+		case float64:
+			other[k] = x + 1
+		case bool:
+			other[k] = !x
+		default:
+			other[k] = v
+		}
+	}
+	wantOther, errOther, panOther, _, _ := parseWithParams(tmpl, other)
+	if panOther {
+		return
+	}
+	text := tmpl + " ; " + tmpl + " ; " + tmpl
+	det := func(why string) map[string]interface{} {
+		return map[string]interface{}{"idx": idx, "input": text, "params": fmt.Sprintf("%#v then %#v then none of the names", params, other), "why": why}
+	}
+	var s1, s2, s3 influxql.Statement
+	var e1, e2, e3 error
+	sep1, sep2 := false, false
+	if p, pv, stk := mon.Try(func() {
+		ps := influxql.NewParser(strings.NewReader(text))
+		ps.SetParams(params)
+		if s1, e1 = ps.ParseStatement(); e1 != nil {
+			return
+		}
+		if tok, _, _ := ps.ScanIgnoreWhitespace(); tok != influxql.SEMICOLON {
+			return
+		}
+		sep1 = true
+		ps.SetParams(other)
+		if s2, e2 = ps.ParseStatement(); e2 != nil {
+			return
+		}
+		if tok, _, _ := ps.ScanIgnoreWhitespace(); tok != influxql.SEMICOLON {
+			return
+		}
+		sep2 = true
+		ps.SetParams(map[string]interface{}{"zz": int64(1)})
+		s3, e3 = ps.ParseStatement()
+	}); p {
+		d := det(fmt.Sprint(pv))
+		d["stack"] = stk
+		r.Violation("panic", d)
+		return
+	}
+	r.Eval(1)
+	if e1 != nil || !sep1 {
+		local["stream.first-statement-not-delimited(skipped)"]++
+		return
+	}
+	if dumpOf(s1) != dumpOf(want) {
+		r.Violation("placeholder-value-differs", det("the first statement of the stream differs from the same template parsed alone: "+astx.FirstDiff(dumpOf(want), dumpOf(s1))))
+		return
+	}
+	if errOther != nil {
+		if e2 == nil {
+			r.Violation("unbound-or-unbindable-accepted", det("alone, the template fails under the second bindings ("+errOther.Error()+"), in the stream it is accepted as "+trunc(s2.String(), 200)))
+			return
+		}
+		local["stream.second-fails-as-alone"]++
+		return
+	}
+	if e2 != nil {
+		r.Violation("template-rejected", det("the second statement is parsed under new bindings that the template accepts alone, but fails here: "+e2.Error()))
+		return
+	}
+	if dumpOf(s2) != dumpOf(wantOther) {
+		r.Violation("placeholder-value-differs", det("after SetParams the second statement must carry the new values: "+astx.FirstDiff(dumpOf(wantOther), dumpOf(s2))))
+		return
+	}
+	local["stream.rebound-between-statements"]++
+	if !sep2 {
+		return
+	}
+	if e3 == nil {
+		r.Violation("unbound-or-unbindable-accepted", det("the third statement is read after SetParams dropped every name, but was accepted as "+trunc(s3.String(), 200)))
+		return
+	}
+	local["stream.unbound-after-rebind-fails"]++
 }
 
 func checkC07(c *Ctx) (string, bool, []string) {
